@@ -17,8 +17,8 @@ ASSUMPTIONS = ["reference evaluator celmodel/refeval.py implements the semantics
 
 
 def units(tier, seed):
-    n = 48 if tier == 'quick' else 320
-    return [('typed', i) for i in range(n)] + [('concat', i) for i in range(2 if tier == 'quick' else 16)] + [('crossnum',), ('errorder',)]
+    n = 48 if tier == 'quick' else 1920
+    return [('typed', i) for i in range(n)] + [('concat', i) for i in range(2 if tier == 'quick' else 64)] + [('crossnum',), ('errorder',)]
 
 
 def concat_programs(rng):
